@@ -6,9 +6,12 @@ def run(ctx):
     cache_corr.history_campaign(ctx, camp, ctx.n(60, 1200), ctx.n(6, 8))
     import cache_files
     cache_files.run_file_histories(ctx, camp.found)     # real file stores, real modified times
+    cache_files.directory_sources(ctx, lambda key, what, replay: camp.add("C03", key, what, replay))
     import c08_files
     c08_files.overlapping_writes(ctx)     # file stores with the same stem written at overlapping times, then the repairing run
     interrupted_write(ctx, camp.add)
+    import planlevel
+    planlevel.equal_constants(ctx, core.use_repo(), True, lambda key, what, replay: camp.add("C03", key, what, replay))
     import depviews
     depviews.run(ctx, camp.add)
     import tz_histories
